@@ -1,6 +1,7 @@
 package main
 
 import (
+	"context"
 	"encoding/json"
 	"fmt"
 	"os"
@@ -9,7 +10,6 @@ import (
 	"regexp"
 	"sort"
 	"strings"
-	"context"
 	"time"
 )
 
